@@ -345,7 +345,8 @@ class Inliner:
                 continue  # parameter, argument and target are one variable
             if isinstance(e, ast.Name) and e.id in outmap.values() and p not in reassigned:
                 raise Unsupported("target is read through another parameter")
-            if dead_after and isinstance(e, ast.Name) and p in reassigned and e.id not in outmap.values() and \
+            if (dead_after or (getattr(self, "_dead_names", None) and isinstance(e, ast.Name) and e.id in self._dead_names)) \
+                    and isinstance(e, ast.Name) and p in reassigned and e.id not in outmap.values() and \
                     sum(isinstance(n, ast.Name) and n.id == e.id for _, x in args for n in ast.walk(x)) == 1:
                 # 'return helper(v)': the caller's v is dead after the call, the re-assigned parameter can live in it
                 mapping[p] = e.id
@@ -735,13 +736,22 @@ class Inliner:
         if isinstance(s, (ast.Assign, ast.AnnAssign)) and is_whole and not gen:
             outmap = self._outmap(callee, s.targets if isinstance(s, ast.Assign) else [s.target])
         dead_after = isinstance(s, ast.Return) and is_whole and not self._in_try
+        dead_names = None
+        if not dead_after and not self._in_try and not closure:
+            # arguments that are plain names never read again in the caller (and the call is not in a loop): a re-assigned
+            # parameter may live in such a name as well
+            dead_names = self._names_dead_after(fi, s)
+        self._dead_names = dead_names
         try:
-            binds, body = self._instantiate(callee, call, recv, closure, outmap, dead_after)
-        except Unsupported:
-            if outmap is None:
-                raise
-            outmap = None
-            binds, body = self._instantiate(callee, call, recv, closure, None, dead_after)
+            try:
+                binds, body = self._instantiate(callee, call, recv, closure, outmap, dead_after)
+            except Unsupported:
+                if outmap is None:
+                    raise
+                outmap = None
+                binds, body = self._instantiate(callee, call, recv, closure, None, dead_after)
+        finally:
+            self._dead_names = None
         line = call
         if gen:
             def mk_gen(r):
@@ -804,6 +814,42 @@ class Inliner:
             else:
                 res.append(x)
         return res
+
+    @staticmethod
+    def _names_dead_after(fi: FuncInfo, s: ast.stmt) -> set:
+        """Local names that are not read in any statement after ``s`` (document order) - provided s is not inside a loop, so that
+        'after' in the text is 'after' in time.  (Reads inside s itself happen before the call returns.)"""
+        order = []
+        in_loop = {}
+
+        def walk(stmts, looped):
+            for x in stmts:
+                order.append(x)
+                in_loop[id(x)] = looped
+                for f, lst in _stmt_lists(x):
+                    walk(lst, looped or isinstance(x, (ast.For, ast.AsyncFor, ast.While)))
+        walk(fi.node.body, False)
+        if id(s) not in in_loop or in_loop[id(s)]:
+            return set()
+        i = next(k for k, x in enumerate(order) if x is s)
+        later_reads = set()
+        inner = {id(y) for y in ast.walk(s)}
+        for x in order[i + 1:]:
+            if id(x) in inner:
+                continue
+            for y in ast.walk(x):
+                if isinstance(y, ast.Name) and isinstance(y.ctx, ast.Load):
+                    later_reads.add(y.id)
+        # statements nested in s (if the call is the test of an if) count as 'after'
+        if isinstance(s, (ast.If, ast.While)):
+            for f, lst in _stmt_lists(s):
+                for x in lst:
+                    for y in ast.walk(x):
+                        if isinstance(y, ast.Name) and isinstance(y.ctx, ast.Load):
+                            later_reads.add(y.id)
+        args = {a.arg for a in fi.node.args.posonlyargs + fi.node.args.args + fi.node.args.kwonlyargs}
+        locals_ = {y.id for y in ast.walk(fi.node) if isinstance(y, ast.Name)} | args
+        return locals_ - later_reads
 
     @staticmethod
     def _drop_dead_return(stmts):
